@@ -28,7 +28,9 @@ def run_history(runs, timeout=120):
     d = tempfile.mkdtemp(prefix="vhist-", dir=os.path.join(BUILD))
     try:
         inp = "\n".join("run %s %s %s %s 1 %s %s" % (r["persist"] + r.get("ug", ""), r["thread"], r["ms"], r["script"], r["objs"], r["bodies"]) for r in runs) + "\n"
-        p = subprocess.run([VHARNESS, "history", d], input=inp, stdout=subprocess.PIPE, stderr=subprocess.PIPE, text=True, timeout=timeout)
+        # the process runs inside the directory, so that FailurePersistence::File(None) ("the current directory", persistence `cwd`)
+        # writes where File(Some(dir)) does
+        p = subprocess.run([VHARNESS, "history", d], input=inp, stdout=subprocess.PIPE, stderr=subprocess.PIPE, text=True, timeout=timeout, cwd=d)
         outs = [l for l in p.stdout.split("\n") if l.startswith("R ")]
         segs = {}
         cur = None
@@ -80,6 +82,11 @@ def run(tier):
                   dict(ms="none", script="-", objs="a0,m", bodies="lk1;a0.add.1;pn", persist="print", thread="same")])
     hists.append([dict(ms="none", script="-", objs="a0", bodies="a0.add.1", persist="none", thread="same"),
                   dict(ms="none", script="-", objs="a0", bodies="a0.add.1;pn", persist="file", thread="same")])
+    # a failure reached through a spurious wake-up of a parked task: the emitted schedule names a task that is blocked in park
+    hists.append([dict(ms="none", script="0,0,0,0,0,0,0,0", objs="a0", bodies="sp1;pk;pn|yd;yd;yd;yd", persist="print", thread="same"),
+                  dict(ms="none", script="0,0,1,0,0,0,0,0", objs="a0", bodies="sp1;yd;pk;a0.ld;pn|yd;yd;yd;yd", persist="file", thread="same")])
+    hists.append([dict(ms="none", script="-", objs="a0", bodies="a0.add.1;pn", persist="cwd", thread="same"),
+                  dict(ms="none", script="-", objs="a0,m", bodies="sp1;lk1;jn0|lk1", persist="cwd", thread="new")])
     for _ in range(n):
         h = []
         for _ in range(rng.randint(1, 5)):
@@ -90,7 +97,7 @@ def run(tier):
             # the ungraceful-shutdown settings of a run are its own too: runs that cannot panic sometimes ask for early
             # return / dropped continuation functions, which must not change how a LATER run reports its panic
             ug = rng.choice(["", "", "+e", "+e+d", "+d"]) if "pn" not in bodies else ""
-            h.append({"ms": ms, "script": script, "objs": objs, "bodies": bodies, "persist": rng.choice(["none", "print", "print", "file", "file"]),
+            h.append({"ms": ms, "script": script, "objs": objs, "bodies": bodies, "persist": rng.choice(["none", "print", "print", "file", "file", "cwd"]),
                       "thread": rng.choice(["same", "same", "new"]), "ug": ug})
         hists.append(h)
     with ThreadPoolExecutor(max_workers=JOBS) as ex:
@@ -114,7 +121,7 @@ def run(tier):
             kind = "ok" if o["term"] == "ok" else "panic" if o["term"].startswith("panic") else "deadlock" if o["term"].startswith("deadlock") else "stepbound"
             # schedule length at the failure = number of steps of the recorded schedule (second varint of the encoding is opaque here): use the text itself as a proxy for equality
             ln = len(o["sched"]) * 7 % 1000 + (hash(o["sched"]) % 7 if False else 0)
-            parts.append("%d.%s.%s.%d.0" % (t, r["persist"], kind, ln))
+            parts.append("%d.%s.%s.%d.0" % (t, "file" if r["persist"] == "cwd" else r["persist"], kind, ln))
         mcases.append("history " + ";".join(parts) if parts else None)
     mo = ctx.run_model("history", [m for m in mcases if m])
     mi = iter(mo)
@@ -135,7 +142,7 @@ def run(tier):
                 failing = o["term"] != "ok"
                 nprint, nfile = len(o["printed"]), len(o["files"])
                 want_p = 1 if failing and r["persist"] == "print" else 0
-                want_f = 1 if failing and r["persist"] == "file" else 0
+                want_f = 1 if failing and r["persist"] in ("file", "cwd") else 0
                 if failing:
                     stats["failing_runs"] += 1
                     exp_payload = {"panic": "vpanic", "deadlock": "deadlock", "stepbound": "max_steps"}[o["term"].split(":")[0]]
@@ -296,7 +303,7 @@ def run(tier):
     stats["failing_runs_replayed_with_random_data"] = nrep
     stats["of_which_failed_after_the_first_execution"] = nlate
     ctx.cov["history_stats"] = stats
-    ctx.cov["rule"] = ("histories of 1-5 configured runs (persistence none/print/file, same or new thread; deadlocks, panics in main / in a spawned thread / while holding a lock, exceeded FailAfter bounds, passing and stopped runs) "
+    ctx.cov["rule"] = ("histories of 1-5 configured runs (persistence none / print / file in a given directory / file in the current directory, same or new thread; deadlocks, panics in main / in a spawned thread / while holding a lock, exceeded FailAfter bounds, passing and stopped runs) "
                        "executed in ONE fresh process each; stderr is attributed to runs by markers, files by directory listing; each run must emit exactly what its own configuration prescribes; "
                        "every emitted schedule is parsed and replayed. non-trivial = histories with more than one run")
     ctx.sample({"history": hists[0], "observed": results[0]})
